@@ -24,6 +24,7 @@ OVERLAYS = {
     "usecase_core": "internal/usecase/core",
     "content": "internal/repository/content",
     "inline_db": "pkg/inline/db",
+    "app": "internal/app",
     "root": ".",
 }
 
